@@ -437,6 +437,25 @@ func anyUnit(which string) func(r *engine.Rec) {
 		pos := 0
 		_ = pos
 		laws(r, u, which)
+		// RankValues == Equal exactly for structurally equal values (the specified order distinguishes any two
+		// values that differ in a part: natural order on leaves, element-wise on sequences, key-then-value on maps)
+		if which == "C07" {
+			coll := age.Collator[any]().Make()
+			for i := range nodes {
+				for j := range nodes {
+					var rk age.Rank
+					o := rt.Protect(fuel, func() { rk = coll.RankValues(vals[i], vals[j]) })
+					r.Evals++
+					if o.Panicked {
+						continue
+					}
+					if want := RefEqual(nodes[i], nodes[j]); (rk == age.EqualRank) != want {
+						c := pairCase{u.name, i, j, 0, nodes[i].String() + " , " + nodes[j].String()}
+						r.Violation("any: RankValues is Equal for structurally different values (or not Equal for equal ones)"+tags(nodeTag(nodes[i]), nodeTag(nodes[j])), fmt.Sprintf("%s: rank %v, structurally equal %v", c.Desc, rk, want), c)
+					}
+				}
+			}
+		}
 		// reference equality on all pairs (C08): CompareValues == RefEqual
 		if which == "C08" {
 			coll := age.Collator[any]().Make()
@@ -605,6 +624,8 @@ func history(which string) func(r *engine.Rec) {
 			{"[[1]],[[1]]", func() any { return col.List[any](N()).MakeFromArray([]any{[]any{int64(1)}}) }, func() any { return col.List[any](N()).MakeFromArray([]any{[]any{int64(1)}}) }},
 			{"gomap,gomap", val(map[string]any{"a": int64(1)}), val(map[string]any{"a": int64(1)})},
 			{"[],[1]", lst(), lst(int64(1))},
+			{"{a:{p,q},b:1},{a:{p,q},b:2}", val(map[string]any{"a": map[string]any{"p": int64(1), "q": int64(2)}, "b": int64(1)}), val(map[string]any{"a": map[string]any{"p": int64(1), "q": int64(2)}, "b": int64(2)})},
+			{"big map,big map", val(map[string]any{"a": int64(1), "b": int64(2), "c": int64(3), "d": int64(4), "e": int64(5)}), val(map[string]any{"a": int64(1), "b": int64(2), "c": int64(3), "d": int64(4), "e": int64(6)})},
 		}
 		for name, mk := range cyclicValues() {
 			mk := mk
